@@ -59,3 +59,14 @@ Inductive gstmt := GFloating (label var : str) | GOther.
 Definition gs_is_floating (s : gstmt) : bool := match s with GFloating _ _ => true | GOther => false end.
 Definition gs_label (s : gstmt) : str := match s with GFloating l _ => l | GOther => [] end.
 Definition gs_metavariable (s : gstmt) : str := match s with GFloating _ v => v | GOther => [] end.
+
+(** [(elt for x in xs if cond)] / [[elt for x in xs if cond]]: the loop that appends; [f x = None] when the condition fails *)
+Definition py_genexp {X Y} (f : X -> option Y) (xs : list X) : list Y :=
+  flat_map (fun x => match f x with Some y => [y] | None => [] end) xs.
+
+(** [dict(enumerate(xs, start=b))] *)
+Fixpoint py_dict_enum {V} (b : N) (l : list V) : list (N * V) :=
+  match l with
+  | [] => []
+  | x :: r => (b, x) :: py_dict_enum (b + 1) r
+  end.
